@@ -68,6 +68,7 @@ type c07RaceOutcome struct {
 	Inconclusive string        `json:"inconclusive,omitempty"`
 	Panic        string        `json:"panic,omitempty"`    // an operation panicked (recovered per goroutine): value + gorm frames
 	Deadlock     string        `json:"deadlock,omitempty"` // the program hung with every gorm goroutine in a completion-channel receive
+	F32          int           `json:"f32,omitempty"`      // results matching the listed finding F32 (see c07FailF32)
 	OpKinds      []string      `json:"op_kinds"`
 	Errs         int           `json:"errs"`
 	Millis       int64         `json:"ms"`
@@ -1091,6 +1092,9 @@ func c07RaceChild(r *Result, rng *rand.Rand, tier string) {
 		if got.errs > 0 && ref.errs == 0 {
 			// errors that only occur concurrently: SQLite locking noise or a gorm defect — decided by the texts below
 		}
+		if p.Family == "fail" && c07ProgPrepOn(p) {
+			o.F32 = c07FailF32(ref.outs, got.outs)
+		}
 		for g := 0; g < p.G && o.Mismatch == ""; g++ {
 			if canon(ref.outs[g]) != canon(got.outs[g]) {
 				for i := range ref.outs[g] {
@@ -1341,6 +1345,17 @@ func c07JudgeRaceOutcomes(r *Result, outcomes []c07RaceOutcome, probe string) {
 			r.Violate(Violation{Kind: "correspondence", Suite: "race-single-winner", Input: p, Observed: o.PtrDiff,
 				Expected: "every goroutine receives the same *schema.Schema for one model type (Gorm.C07_cache_single_winner)",
 				Note:     "schema-cache protocol: two schema objects for one model type were handed to callers"})
+		}
+		if o.F32 > 0 {
+			r.H("race.result", "known-F32")
+			what := "under concurrent driver.ErrBadConn on one cached statement a goroutine gets \"sql: statement is closed\" (another goroutine's eviction closed the statement it holds) instead of its own \"driver: bad connection\""
+			if listed("F32-C07-badconn-eviction-closes-held-statement") {
+				r.KnownFinding("F32-C07-badconn-eviction-closes-held-statement", what)
+			} else {
+				r.Violate(Violation{Kind: "e2e", Suite: "race", Input: p, Observed: fmt.Sprintf("%d operation(s): %s", o.F32, what), Expected: "results equal the serial run of the same programs"})
+			}
+		} else if p.Family == "fail" && p.Only == "fault-badconn" {
+			r.Note("probe F32 (ErrBadConn eviction closes a held statement): did not reproduce in this run (scheduling dependent)")
 		}
 		if o.Panic != "" {
 			r.H("race.result", "panic")
